@@ -343,7 +343,10 @@ class Run(object):
                     d0 = d
                     d |= E
                     if d is not d0:
-                        self.fail(i, "fixeddict-ior-rebinds", "`d |= E` returned a different object")
+                        self.fail(i, "fixeddict-ior-rebinds", "`d |= E` (E a %s) rebound the name to a different object of type %s: %r" % (
+                            type(E).__name__, type(d).__name__, d))
+                        if type(d) is not cls:
+                            d = d0       # keep observing the original object
                 elif o[0] in ("copy", "copymod", "pickle"):
                     if o[0] == "copy":
                         d2 = d.copy()
